@@ -543,6 +543,27 @@ pub fn check_c06(h: &[UEv]) -> Option<Violation> {
                         }
                     }
                 }
+                // A force-flush guard's drop that is in flight at s* may hold the guard cell (it has upgraded its weak
+                // reference) without being the one that ends up emitting: a second force-flush guard dropped while the
+                // first is still in flight can take the release out of the cell first, and then emits inside *its*
+                // drop, which began after s*. So: any force-flush guard drop that began while a force-flush guard
+                // drop from before s* was still in flight extends the deadline to its own end.
+                let force_in_flight_until = m
+                    .drop_inv
+                    .iter()
+                    .filter(|(o, inv)| **inv < s && m.kinds.get(*o).copied() == Some("force"))
+                    .filter_map(|(o, _)| m.drop_ret.get(o).copied().filter(|r| *r > s))
+                    .max();
+                if let Some(until) = force_in_flight_until {
+                    for (o, inv) in &m.drop_inv {
+                        if m.kinds.get(o).copied() == Some("force") && *inv > s && *inv < until {
+                            match m.drop_ret.get(o) {
+                                Some(r) => deadline = deadline.max(*r),
+                                None => open_ended = true,
+                            }
+                        }
+                    }
+                }
                 if !open_ended && *a > deadline {
                     return Some(Violation::new("appended_too_late", format!("the closing condition was complete at #{s} (drops in flight until #{deadline}) but the entry was only appended at #{a}")));
                 }
@@ -961,11 +982,24 @@ impl metrique::CloseValue for Holder {
     }
 }
 
+/// Holds a force-flush guard of *another* entry and drops it when it is closed (in the middle of its owner's
+/// emission): the other entry is emitted there and then, nested.
+#[derive(Default)]
+pub struct ForceHolder(pub Option<ForceFlushGuard>);
+impl metrique::CloseValue for ForceHolder {
+    type Closed = u64;
+    fn close(self) -> u64 {
+        drop(self.0);
+        0
+    }
+}
+
 #[metrics]
 #[derive(Default)]
 pub struct Link {
     idx: u64,
     next: Holder,
+    next_force: ForceHolder,
     /// a force-flush guard of this very entry, kept inside it (released when the entry is closed and dropped, i.e.
     /// in the middle of its own emission)
     #[metrics(ignore)]
@@ -1009,14 +1043,51 @@ fn chain_part(sink: &LinkSink, depth: u64, panics: u64, base: u64) {
     // an entry that holds one of its own force-flush guards (recorded as 900 + base / 100): the owner goes first, a
     // flush guard keeps the entry back, a second force-flush guard releases it - and the emission drops the first
     {
-        let mut m = Link { idx: 900 + base / 100, next: Holder(None), own_guard: None }.append_on_drop(sink.clone());
+        // (before it: an entry of the same thread that is already emitted, whose force-flush guard is still around -
+        // dropping that stale guard later concerns nobody else)
+        let earlier = Link { idx: 950 + base / 100, next: Holder(None), next_force: ForceHolder(None), own_guard: None }.append_on_drop(sink.clone());
+        let stale = earlier.force_flush_guard();
+        drop(earlier);
+        let mut m = Link { idx: 900 + base / 100, next: Holder(None), next_force: ForceHolder(None), own_guard: None }.append_on_drop(sink.clone());
         let keep = m.flush_guard();
         m.own_guard = Some(m.force_flush_guard());
         let trigger = m.force_flush_guard();
         drop(m);
         detsim::yield_point();
+        drop(stale);
+        if sink.0.lock().unwrap().contains(&(900 + base / 100)) {
+            // marker: emitted by the drop of a force-flush guard that belongs to another entry
+            sink.0.lock().unwrap().push(999_999);
+        }
         drop(trigger);
+        if !sink.0.lock().unwrap().contains(&(900 + base / 100)) {
+            // marker: a force-flush guard was dropped (after the owner) and the entry is still not out
+            sink.0.lock().unwrap().push(999_997);
+        }
         drop(keep);
+    }
+    // entry A (960 + ...) holds a force-flush guard of entry B (970 + ...). B's owner is gone, a flush guard keeps it
+    // back. A is emitted by one of its own force-flush guards; closing A drops B's guard: B goes out nested inside.
+    {
+        let b = Link { idx: 970 + base / 100, next: Holder(None), next_force: ForceHolder(None), own_guard: None }.append_on_drop(sink.clone());
+        let keep_b = b.flush_guard();
+        let force_b = b.force_flush_guard();
+        drop(b);
+        let mut a = Link { idx: 960 + base / 100, next: Holder(None), next_force: ForceHolder(None), own_guard: None }.append_on_drop(sink.clone());
+        a.next_force = ForceHolder(Some(force_b));
+        let keep_a = a.flush_guard();
+        let trigger_a = a.force_flush_guard();
+        drop(a);
+        detsim::yield_point();
+        drop(trigger_a);
+        {
+            let got = sink.0.lock().unwrap().clone();
+            if !(got.contains(&(960 + base / 100)) && got.contains(&(970 + base / 100))) {
+                sink.0.lock().unwrap().push(999_998);
+            }
+        }
+        drop(keep_a);
+        drop(keep_b);
     }
     // a field-less marker entry (recorded as 500_000 + base), with a flush guard that outlives the owner
     {
@@ -1029,11 +1100,20 @@ fn chain_part(sink: &LinkSink, depth: u64, panics: u64, base: u64) {
     {
         // entries whose append panics, one after the other on this thread
         for k in 0..panics {
-            let e = Link { idx: 1000 + base + k, next: Holder(None), own_guard: None }.append_on_drop(sink.clone());
-            let _ = std::panic::catch_unwind(std::panic::AssertUnwindSafe(move || drop(e)));
+            let e = Link { idx: 1000 + base + k, next: Holder(None), next_force: ForceHolder(None), own_guard: None }.append_on_drop(sink.clone());
+            if k % 2 == 0 {
+                let _ = std::panic::catch_unwind(std::panic::AssertUnwindSafe(move || drop(e)));
+            } else {
+                // ... or the emission that panics is one triggered by a force-flush guard
+                let keep = e.flush_guard();
+                let trigger = e.force_flush_guard();
+                drop(e);
+                let _ = std::panic::catch_unwind(std::panic::AssertUnwindSafe(move || drop(trigger)));
+                drop(keep);
+            }
         }
         // a chain: entry i holds the flush guard of entry i+1 and releases it while being closed
-        let mut owners: Vec<AppendAndCloseOnDrop<Link, LinkSink>> = (0..depth).map(|i| Link { idx: base + i, next: Holder(None), own_guard: None }.append_on_drop(sink.clone())).collect();
+        let mut owners: Vec<AppendAndCloseOnDrop<Link, LinkSink>> = (0..depth).map(|i| Link { idx: base + i, next: Holder(None), next_force: ForceHolder(None), own_guard: None }.append_on_drop(sink.clone())).collect();
         for i in (0..owners.len().saturating_sub(1)).rev() {
             let g = owners[i + 1].flush_guard();
             owners[i].next = Holder(Some(g));
@@ -1121,6 +1201,34 @@ impl Scenario for UowChain {
                 let (depth, base) = (ju(p, "depth", 1), ju(p, "base", 0));
                 max_depth = max_depth.max(depth);
                 panics += ju(p, "panics", 0);
+                if got.contains(&999_997) || got.contains(&999_998) {
+                    r.violation = Some(Violation::new(
+                        "appended_too_late",
+                        if got.contains(&999_997) {
+                            "owner dropped, then a force-flush guard of the entry dropped: the entry was still not appended when that drop returned (earlier on this thread an emission triggered the same way had panicked in the sink)".to_string()
+                        } else {
+                            "entry A, emitted by one of its force-flush guards, drops a force-flush guard of entry B while it is closed: B (owner gone, a flush guard alive) was not appended by that drop".to_string()
+                        },
+                    ));
+                    break 'parts;
+                }
+                for k in [960u64, 970] {
+                    if got.iter().filter(|x| **x == k + base / 100).count() != 1 {
+                        r.violation = Some(Violation::new("appended_twice", format!("entry {} of the nested force-flush pair was not appended exactly once", k + base / 100)));
+                        break 'parts;
+                    }
+                }
+                if got.contains(&999_999) {
+                    r.violation = Some(Violation::new(
+                        "appended_too_early",
+                        "an entry whose owner was dropped but whose flush guard was alive was appended when a force-flush guard of an *earlier, already emitted* entry of the same thread was dropped".to_string(),
+                    ));
+                    break 'parts;
+                }
+                if got.iter().filter(|x| **x == 950 + base / 100).count() != 1 {
+                    r.violation = Some(Violation::new("never_appended", "an entry without guards was not appended exactly once at its owner's drop".to_string()));
+                    break 'parts;
+                }
                 let selfg = got.iter().filter(|x| **x == 900 + base / 100).count();
                 if selfg != 1 {
                     r.violation = Some(Violation::new(
